@@ -366,10 +366,10 @@ class Loader:
     def load_allocations(self):
         """Load allocations and assignments map."""
         data = self.backend.get_default(z.ALLOCATIONS, default={})
+        self.assignments = collections.defaultdict(list)
         if not data:
             return
 
-        self.assignments = collections.defaultdict(list)
         for obj in data:
             partition = obj.get('partition')
             name = obj['name']
